@@ -160,7 +160,7 @@ def describe(tier):
                      'equivariance: every adjacent transposition of 2 cells (3 for statistic-driven commands) applied to all inputs, and reshapes (n,)->(1,n),(n,1); all mask placements symbolic',
             'thorough': 'adds shapes (1,3) (3,1) (1,2,2) (2,1,2) (4,) (1,), transpositions on 3-4 cells, reshapes (4,)->(2,2), (2,)->(1,2,1)',
         },
-        'outside': ['more than 4 cells / rank > 3', 'IEEE rounding', 'arbitrary permutations are covered through adjacent transpositions (they generate the symmetric group); composition is a meta-argument'],
+        'outside': ['more than 4 cells / rank > 3 (column-major grids: (2,2), thorough (3,2))', 'IEEE rounding', 'strided (non-contiguous) views; the memory layout of INTERMEDIATE results (row-major in the stand-in; mismatches are reported by the per-path validation)', 'arbitrary permutations are covered through adjacent transpositions (they generate the symmetric group); composition is a meta-argument'],
         'assumptions': D.STUBS + ['A-pre as in C03/C08 (fuzzy range, >=2 distinct valid values for statistic-driven commands)',
                                   'equivariance is a relational query: the command runs on X and on sigma(X) in one path and result2 == sigma(result1) is proved on masks and non-missing values'],
     }
